@@ -46,6 +46,11 @@ def jobs(tier, seed):
                                 zchunks=[[1], [1, 1]] if tier == 'quick' else base['zchunks'], vchunks=[[1], [2]] if tier == 'quick' and gi == 1 else ([[1], [1, 1]] if tier == 'quick' else base['vchunks'])))
                 out.append(dict(base, name='crosstab-%dx%d-g%d-cat_ids' % (shp[0], shp[1], gi), fn='crosstab', agg='count', sel='cat2', shape=[1, 2] if tier == 'quick' else list(shp),
                                 zchunks=[[1], [1, 1]] if tier == 'quick' else base['zchunks'], vchunks=[[1], [2]] if tier == 'quick' and gi == 1 else ([[1], [1, 1]] if tier == 'quick' else base['vchunks'])))
+    # integer zones / integer values (1x3, uneven chunks)
+    b13 = {'shape': [1, 3], 'zchunks': [[1], [1, 2]], 'vchunks': [[1], [2, 1]]}
+    out.append(dict(b13, name='stats-1x3-int-zones-count-min-max', fn='stats', stats=['count', 'min', 'max'], sel='none', zdtype='int32'))
+    out.append(dict(b13, name='stats-1x3-int-zones-int-values-sum-mean', fn='stats', stats=['sum', 'mean'], sel='none', zdtype='int64', vdtype='int32'))
+    out.append(dict(b13, name='crosstab-1x3-int-zones-int-values-count', fn='crosstab', agg='count', sel='none', zdtype='uint8', vdtype='int32'))
     return out
 
 
@@ -72,8 +77,9 @@ def body(ctx, job):
     sc.set_axioms(sqrt_exact=True, congruence='syntactic')
     h, w = job['shape']
     nonan = bool(job.get('nonan'))
-    zones_d = ctx.array('z', (h, w), 'float64', nan=not nonan)
-    vals_d = ctx.array('v', (h, w), 'float64', nan=not nonan)
+    zdt, vdt = job.get('zdtype', 'float64'), job.get('vdtype', 'float64')
+    zones_d = ctx.array('z', (h, w), zdt, nan=not nonan, **({'lo': 0 if zdt[0] == 'u' else -2, 'hi': 3} if zdt[0] in 'iu' else {}))
+    vals_d = ctx.array('v', (h, w), vdt, nan=not nonan, **({'lo': -3, 'hi': 3} if vdt[0] in 'iu' else {}))
     nodata = None if nonan else ctx.real('nodata')
     ys = coords_affine(h, float(h), -1.0)
     xs = coords_affine(w, 0.0, 1.0)
